@@ -141,6 +141,12 @@ let run () =
             | DRejected s1 -> st := Some s1; out "err"
             | DHandlerErr s1 -> st := Some s1; out "err")
          | None -> ())
+      | "HM" :: spec :: _ when not !dead ->      (* a message handed to the handler directly: no ante handler, no fee *)
+        (match !st with
+         | Some s -> (match handle s (parse_msg spec) with
+             | HOk s1 -> st := Some s1; out "ok"
+             | HErr s1 -> st := Some s1; out "err")
+         | None -> ())
       | ["AW"; a; amt] when not !dead ->
         (match !st with Some s -> st := Some (k_award s (bz a) (zo amt)); out "ok" | None -> ())
       | ["BU"; a; sev] when not !dead ->
@@ -152,6 +158,7 @@ let run () =
              | None -> abort ())
          | None -> ())
       | ["CM"] when not !dead -> out "ok"
+      | ["RS"] when not !dead -> out "ok"     (* the process is stopped and reopened from its database: nothing the model holds changes *)
       | _ -> ()
     done
   with End_of_file -> ())
